@@ -26,6 +26,41 @@ def sh(cmd, cwd=None, inp=None, timeout=None, env=None):
     return p.returncode, p.stdout, p.stderr
 
 
+def strip_lean_strings(src):
+    """blank the CONTENT of string literals in comment-free Lean source (use strip_lean_noncode on raw source)"""
+    return strip_lean_noncode(src)
+
+
+def strip_lean_noncode(src):
+    """one pass over Lean source: drop line comments and nested block comments, blank the content of string
+    literals ("…" with \\-escapes) and skip char literals.  A forbidden word inside a string (e.g. Rust source snippets
+    in the regenerated tables: `unsafe { … }`) or a comment is data, not a construct."""
+    out, i, n, depth = [], 0, len(src), 0
+    while i < n:
+        if src.startswith("/-", i):
+            depth += 1; i += 2; continue
+        if depth:
+            if src.startswith("-/", i):
+                depth -= 1; i += 2
+            else:
+                i += 1
+            continue
+        if src.startswith("--", i):
+            j = src.find("\n", i); i = n if j < 0 else j; continue
+        c = src[i]
+        if c == '"':
+            i += 1
+            while i < n and src[i] != '"':
+                i += 2 if src[i] == "\\" else 1
+            i += 1; out.append('""'); continue
+        if c == "'" and i + 2 < n and src[i + 1] != "\\" and src[i + 2] == "'":
+            out.append("' '"); i += 3; continue
+        if c == "'" and i + 3 < n and src[i + 1] == "\\" and src[i + 3] == "'":
+            out.append("' '"); i += 4; continue
+        out.append(c); i += 1
+    return "".join(out)
+
+
 def strip_lean_comments(src):
     # remove nested block comments and line comments
     out, i, depth, n = [], 0, 0, len(src)
@@ -130,7 +165,7 @@ class Run:
             return False
         # forbidden constructs in the transitive sources
         for mod in lean_imports_closure(prop_module):
-            src = strip_lean_comments(open(os.path.join(LEAN, mod.replace(".", "/") + ".lean")).read())
+            src = strip_lean_noncode(open(os.path.join(LEAN, mod.replace(".", "/") + ".lean")).read())
             hit = FORBIDDEN.search(src)
             if hit:
                 self.broken.append(f"forbidden construct `{hit.group(0).strip()}` in {mod}")
